@@ -221,3 +221,92 @@ Definition skein_shape (size : nat) (init : X * (N * N))
   Hasher size true init (fun s _ => s) (fun s blk => process_block s blk size) fin.
 
 End Shapes.
+
+(** * The finalisations of the four crates as written, over abstract compression / output
+    functions (what [finalize_into_dirty] does with state and buffer), and the resulting
+    complete hasher models.  [dflt] stands for a panic ([unwrap] on [Err], [unreachable!()]). *)
+(** several [input_block] calls in a row, each with its own closure: the blocks emitted by each call *)
+Fixpoint feed_calls (b : bb) (pieces : list (list N)) : bb * list (list (list N)) :=
+  match pieces with
+  | [] => (b, [])
+  | p :: r => let x := input_block b p in let y := feed_calls (fst x) r in (fst y, snd x :: snd y)
+  end.
+
+Local Open Scope N_scope.
+
+Section CrateFinalisations.
+Context {X digest : Type}.
+Variable dflt : digest.   (* stands for a panic ([unwrap] on [Err], [unreachable!()]) *)
+
+(** ** BLAKE: [finalize_into_dirty] of hashes/blake/src/lib.rs, word size [w] bits, block
+    [size = 16 words], [isfull] = low bit of the marker byte *)
+Definition blake_fin (w : N) (size : nat) (isfull : N)
+    (put_block : X -> list N -> N * N -> X) (out : X -> digest) : X * (N * N) -> bb -> digest :=
+  fun s b =>
+    let wb := N.to_nat (w / 8) in
+    let pos := bb_pos b in
+    let t := blake_increase_count w (snd s) (N.of_nat pos) in
+    let msglen := be_split wb (snd t) ++ be_split wb (fst t) in
+    let footerlen := (1 + 2 * wb)%nat in
+    let exactfit := if (pos + footerlen =? size)%nat then 0x80 else 0 in
+    let magic := N.lor isfull exactfit in
+    let extra_block := (size <? pos + footerlen)%nat in
+    let padding := 0x80 :: repeat 0 size in
+    let calls1 := if extra_block then [firstn (size - pos) padding] else [] in
+    let position := if extra_block then 0%nat else pos in
+    let t2 := if (position =? 0)%nat then (0, 0) else t in
+    let x := if extra_block then 1%nat else 0%nat in
+    let e := (x + (size - footerlen - position))%nat in
+    let calls := calls1 ++ [skipn x (firstn e padding); [magic]; msglen] in
+    let emitted := snd (feed_calls b calls) in
+    (* closures: first call (if any) [put_block(block, t)], then two [unreachable!()], then
+       [put_block(block, t2)] *)
+    let run_extra := fun h blocks => fold_left (fun h blk => put_block h blk t) blocks h in
+    let run_last := fun h blocks => fold_left (fun h blk => put_block h blk t2) blocks h in
+    match emitted, extra_block with
+    | [b1; []; []; b4], true => out (run_last (run_extra (fst s) b1) b4)
+    | [[]; []; b4], false => out (run_last (fst s) b4)
+    | _, _ => dflt
+    end.
+
+(** ** Groestl: [finalize_dirty] *)
+Definition groestl_fin (input : X -> list N -> X) (out : X -> digest) : X * N -> bb -> digest :=
+  fun s b =>
+    let count := wrap 64 (snd s + 1 + (if (bb_remaining b <=? 8)%nat then 1 else 0)) in
+    out (fold_left input (snd (len_padding_be 8 b count)) (fst s)).
+
+(** ** JH: [finalize_into_dirty] (block size 64) *)
+Definition jh_fin (input : X -> list N -> X) (out : X -> digest) : X * N -> bb -> digest :=
+  fun s b =>
+    let len := wrap 64 (snd s * 8) in
+    if (bb_pos b =? 0)%nat then out (fold_left input (snd (len_padding_be 8 b len)) (fst s))
+    else if (bb_size b <=? bb_pos b)%nat then dflt     (* [pad_with::<Iso7816>().unwrap()] *)
+    else
+      let blk := zero_from (upd (bb_pos b) 0x80 (bb_buf b)) (bb_pos b + 1) in
+      let last := copy_at (repeat 0 64%nat) 56 (be_split 8 len) in
+      out (input (input (fst s) blk) last).
+
+(** ** Skein: [finalize_into_dirty]; [output] is the counter-mode output stage *)
+Definition skein_fin (size : nat) (process_block : X * (N * N) -> list N -> nat -> X * (N * N))
+    (output : X -> digest) : X * (N * N) -> bb -> digest :=
+  fun s b =>
+    let s1 := (fst s, (fst (snd s), N.lor (snd (snd s)) (N.shiftl 1 63))) in
+    match pad_with_zero b with
+    | Some (_, blk) => output (fst (process_block s1 blk (bb_pos b)))
+    | None => dflt                                     (* [.unwrap()] *)
+    end.
+
+
+(** the complete plumbing of each crate *)
+Definition blake_hasher (w : N) (size : nat) (isfull : N) (iv : X)
+    (put_block : X -> list N -> N * N -> X) (out : X -> digest) :=
+  blake_shape w size iv put_block (blake_fin w size isfull put_block out).
+Definition groestl_hasher (size : nat) (iv : X) (input : X -> list N -> X) (out : X -> digest) :=
+  groestl_shape size iv input (groestl_fin input out).
+Definition jh_hasher (iv : X) (input : X -> list N -> X) (out : X -> digest) :=
+  jh_shape 64 iv input (jh_fin input out).
+Definition skein_hasher (size : nat) (init : X * (N * N))
+    (process_block : X * (N * N) -> list N -> nat -> X * (N * N)) (output : X -> digest) :=
+  skein_shape size init process_block (skein_fin size process_block output).
+
+End CrateFinalisations.
